@@ -132,6 +132,58 @@ def h_inorder(ctx, n):
     ctx.reached()
 
 
+def h_e2e_abort_then_reuse(ctx, n_long, n_short):
+    """end to end over the medium: a fragmented send() whose k-th frame (symbolic k, or none) is never acknowledged, then the
+    application sends a short message with the SAME header object: whatever the receiver's queue hands out must be one of the
+    two messages handed to send(), whole, with its type, at most once each"""
+    from circuitpython_nrf24l01.rf24_network import RF24Network
+    from circuitpython_nrf24l01.network.structs import RF24NetworkHeader
+    from checks.common import fresh_env, SimRadio, FakeSpiDev, Pin, Medium
+    clock = fresh_env(ctx)
+    med = Medium()
+    rs, rr = med.add(SimRadio(clock, "sender")), med.add(SimRadio(clock, "receiver"))
+    snd = RF24Network(FakeSpiDev(rs), 0, Pin(rs), 0o1)
+    rcv = RF24Network(FakeSpiDev(rr), 0, Pin(rr), 0)
+    med.attach_node(rr, rcv.update)
+    total = (n_long + 23) // 24
+    lost_k = ctx.int("lost_frame", 0, total)  # == total: nothing is lost
+    seen = []
+
+    def loss(s, d, pkt, attempt):
+        if s is not rs:
+            return "ok"
+        if pkt.uid not in seen:
+            seen.append(pkt.uid)
+        return "pkt" if bool(lost_k == seen.index(pkt.uid)) else "ok"
+    med.loss = loss
+    t1, t2 = ctx.int("type1", 0, 64), ctx.int("type2", 0, 64)
+    long_msg, short_msg = blist(ctx.bytes("long", n_long)), blist(ctx.bytes("short", n_short))
+    h = RF24NetworkHeader(0, t1)
+    from vsym.core import SBytes
+    med.running(rs, True)
+    ok1 = snd.send(h, SBytes(long_msg) if ctx.symbolic else bytes(long_msg))
+    h.to_node = 0
+    if n_short:
+        ctx.check(h.message_type == t1, "the caller's header shows its original type again (C11)")
+        ok2 = snd.send(h, SBytes(short_msg) if ctx.symbolic else bytes(short_msg))
+    med.running(rs, False)
+    for _ in range(20):
+        if not any(st[2] for st in med.nodes.values()):
+            break
+        med.run_pending()
+    out = []
+    while rcv.available():
+        out.append(rcv.read())
+    n1 = n2 = 0
+    for d in out:
+        is1 = len(d.message) == n_long and bool(s_and(d.header.message_type == t1, bytes_eq(d.message, long_msg)))
+        is2 = len(d.message) == n_short and bool(s_and(d.header.message_type == t1, bytes_eq(d.message, short_msg)))
+        ctx.check(is1 or is2, "every delivered message is byte-for-byte one complete message that was handed to send(), with its type")
+        n1, n2 = n1 + is1, n2 + is2
+    ctx.check(n1 <= 1 and (n2 <= 1 or long_msg[:n_short] == short_msg), "each at most once")
+    ctx.reached()
+
+
 def jobs(tier):
     out = []
     if tier == "quick":
@@ -145,6 +197,8 @@ def jobs(tier):
     for frags, events in (([2], 3), ([3], 3), ([2, 2], 3)) if tier == "quick" else (([2], 4), ([3], 5), ([2, 2], 5), ([3, 2], 4), ([4], 5)):
         out.append(Job("symbolic-delivery-schedule-through-update", h_schedule, dict(frags=frags, events=events, body=2, via="update"),
                        cost=4 * len(frags) * events ** 2, shards=4))
+    for nl, ns in ((49, 5), (72, 24), (30, 0)) if tier == "quick" else ((49, 5), (72, 24), (30, 0), (144, 1), (100, 10), (25, 24)):
+        out.append(Job("end-to-end-aborted-send-then-header-reuse", h_e2e_abort_then_reuse, dict(n_long=nl, n_short=ns), cost=30))
     for n in ((25, 48, 49, 96, 121, 137, 144) if tier == "quick" else range(25, 145)):
         out.append(Job("in-order-stream-is-delivered", h_inorder, dict(n=n)))
     return out
